@@ -1,0 +1,22 @@
+//go:build verif
+
+// Contracts for package gcsca, checked by /verif (govc). Comment-only; compiled only under -tags verif.
+package gcsca
+
+// entriesStored(m): every entry of manifest m names an object that exists on the (ghost) disk.
+//@ func getEntry
+//@   requires manifest != nil
+//@   assigns nothing
+//@   ensures result != nil ==> exists(i, 0 <= i && i < len(manifest.Entries) && manifest.Entries[i] == result) && result.KeyVersionName == keyVersionName
+//@   ensures result == nil ==> forall(i, 0 <= i && i < len(manifest.Entries) && manifest.Entries[i] != nil ==> manifest.Entries[i].KeyVersionName != keyVersionName)
+//@   loop 1 invariant forall(i, 0 <= i && i <= rangeindex && manifest.Entries[i] != nil ==> manifest.Entries[i].KeyVersionName != keyVersionName)
+
+//@ func (*CertificateAuthority).writeIfAllowed
+//@   requires ca != nil && ca.Storage != nil
+//@   assigns nothing
+//@   modifies diskHas, wroteAfterManifest, manifestWrites, objWrites
+//@   ensures[C11] err == nil ==> diskHas[path]
+//@   ensures[C11] forall(o, string, old(diskHas)[o] ==> diskHas[o])
+//@   ensures[C11] path != "keyManifest.textproto" ==> manifestWrites == old(manifestWrites)
+//@   ensures[C11] old(manifestWrites) == 0 ==> wroteAfterManifest == old(wroteAfterManifest)
+//@   ensures[C12] old(diskHas)[path] && !allowOverwrite(ctx) ==> objWrites == old(objWrites)
